@@ -127,6 +127,15 @@ theorem undecodable_and_reader_errors_rejected (cfg : Cfg) :
     (srcOutcome cfg .undecodable).isSkipped = true ∧ (srcOutcome cfg .readerError).isSkipped = true := by
   simp [srcOutcome, Outcome.isSkipped]
 
+/-- **Reader errors are contained.**  Whenever the reader model of C02 (`readAll`: illegal
+    leading `&`, inline pre-doc, ...) raises on the lines of a file, the project is the
+    one without that file - whatever the statements before the error were. -/
+theorem reader_error_contained (cfg : Cfg) (hd : cfg.dbg = true) (k : Nat) (f : Str) (m : Marks)
+    (classify : List Str → List Stmt) (lines : List Str) (e : RErr)
+    (h : readAll m lines = .error e) (good : List (Str × Src)) :
+    (loadProject cfg (insertAt k (f, srcOfLines m classify lines) good)).reg = (loadProject cfg good).reg :=
+  project_contained cfg hd k f _ (by simp [srcOfLines, h, srcOutcome, Outcome.isSkipped]) good
+
 /-! ## never hangs -/
 
 /-- The parser's recursion depth (number of open containers) never exceeds the number
@@ -208,6 +217,8 @@ example : parseFile {} [⟨.module, "m".toList⟩, ⟨.contains, []⟩, ⟨.subr
     = .skipped .nested [] := by decide
 example : parseFile {} [⟨.module, "m".toList⟩, ⟨.endUnit, []⟩, ⟨.endUnit, []⟩]
     = .skipped .notImplemented [.endOutside] := by decide
+example : (match readAll Marks.default ["module m".toList, "& x = 1".toList] with
+           | .error e => decide (e = .ampStart) | .ok _ => false) = true := by decide
 example : parseFile { dbg := false } [⟨.contains, []⟩] = .skipped .printError [] := by decide
 example : parseFile { skipReported := true } [⟨.contains, []⟩] = .skipped .reported [.unexpectedContains] := by decide
 
